@@ -23,6 +23,17 @@ if wave == "d":
              "instrument flag, visibility, or a weakened / mismatched memory ordering used as the mechanism. The defect may sit in a place the property relies on "
              "only indirectly (constructors, trait defaults, aliases, the glue between layers) rather than in the functions the anchors name. "
              "The change as a whole must still break the property and satisfy (a)-(d); a reviewer should think 'reasonable small feature / perf tweak'.\n\n")
+if wave == "e":
+    WAVE2 = ("This is a FIFTH ROUND. Earlier rounds produced (1) single-statement slips at the main mechanism, (2) cooperating edits in helpers / siblings, (3) defects disguised "
+             "inside refactorings, (4) feature / optimisation / hardening commits that add fast paths, caches, guards and accessors. This time change the CONTRACT of something "
+             "that crosses a function or layer boundary, at the place that PRODUCES it, and leave its consumers untouched: what a return value / callback argument / out-parameter / "
+             "struct field / trait method / generic constant MEANS (length before vs after, count of reserved vs published, inclusive vs exclusive bound, id vs index, "
+             "'true = retry' vs 'true = done', Some/None or Ok/Err swapped in a corner case, units, which of two similar fields is returned), when a callback is invoked "
+             "(before vs after a state change, on which branch, how many times), or which primitive implements an operation (lock vs try_lock, swap vs load+store, "
+             "compare_exchange_weak without a retry loop, a different memory ordering where the ordering is the mechanism, Mutex vs RwLock read guard, fetch_add vs fetch_update). "
+             "Prefer the glue and support code (types.rs trait defaults, meta_publisher / meta_subscriber / meta_container traits, ogre_sync, instruments, prelude aliases, "
+             "constructors, Drop impls, the streams manager's small helpers) over the functions the anchors name. Each change must be small (1-15 lines), look deliberate and "
+             "reasonable in isolation, and still break the property and satisfy (a)-(d).\n\n")
 print(f"""You are helping to test a verification tool by playing the adversary. You have your own scratch git worktree of a Rust library
 (zertyz/reactive-mutiny: async reactive event library with Uni/Multi channels over custom lock-free queues, pool allocators, OgreArc refcounting,
 an mmap log channel and stream executors) at {wt}. Work ONLY inside {wt} and {wt}-out. Never read or write /repo or /verif.
